@@ -417,20 +417,24 @@ def slog(x):
             out = out + p * _log_atom(a)
         return out
     c, prim = x.content_split()
-    # pull out a monomial common to all terms
-    common = None
+    # pull out the monomial of minimal exponents (missing atom = exponent 0): makes the remaining polynomial free of
+    # negative powers and of common factors, so that log(1 + b/a) + log a and log(a + b) share one normal form
+    atoms_all = set()
     for m in prim.terms:
-        d = dict(m)
-        if common is None:
-            common = d
-        else:
-            common = {a: min(p, d[a]) for a, p in common.items() if a in d and (p > 0) == (d[a] > 0)}
+        atoms_all.update(a for a, _ in m)
+    common = {}
+    for a in atoms_all:
+        mn = min(dict(m).get(a, 0) for m in prim.terms)
+        if mn != 0:
+            common[a] = mn
     out = log_const(c)
     if common:
         cm = tuple(sorted(common.items(), key=lambda ap: ap[0].key))
         prim = prim * Num({_mono_pow(cm, -1): Fraction(1)})
         for a, p in cm:
             out = out + p * _log_atom(a)
+        c2, prim = prim.content_split()
+        out = out + log_const(c2)
     pa = Atom("poly", "poly", sort="Real", payload=prim)
     return out + raw_app("Log", Num.of_atom(pa))
 
@@ -578,6 +582,18 @@ def to_z3(x, cache=None):
     return total
 
 
+def _is_linear(x):
+    for m in x.terms:
+        deg = 0
+        for at, p in m:
+            if p < 0 or at.kind == "poly":
+                return False
+            deg += p
+        if deg > 1:
+            return False
+    return True
+
+
 def atom_to_z3(a, cache):
     if a.key in cache:
         return cache[a.key]
@@ -595,6 +611,17 @@ def atom_to_z3(a, cache):
         else:
             zargs = []
             for arg in a.args:
+                if isinstance(arg, Num) and a.name not in ("Log", "Exp", "LGamma") and not _is_linear(arg):
+                    # a non-linear argument of an uninterpreted application is abstracted to an opaque constant keyed by its
+                    # normal form: congruence then holds for syntactically equal arguments only (sound, incomplete) and no
+                    # division / product inside an argument reaches the non-linear solver
+                    k = "arg:" + arg.key()
+                    if k not in cache:
+                        import hashlib
+
+                        cache[k] = z3.Real("arg!" + hashlib.sha1(arg.key().encode()).hexdigest()[:12])
+                    zargs.append(cache[k])
+                    continue
                 if isinstance(arg, Num):
                     za = to_z3(arg, cache)
                     if z3.is_int(za):
